@@ -18,12 +18,13 @@ else:
         i = os.path.basename(os.path.dirname(p))
         m = json.load(open(p))
         row = km.get('seeded/' + i, {})
-        own = row.get(m['property'])
+        who = (m.get('expected_checks') or [m['property']])[0]
+        own = row.get(who)
         if own:
-            m['caught_by'] = {m['property']: {'verdict': own['verdict'], 'signatures': own['signatures']}}
+            m['caught_by'] = {who: {'verdict': own['verdict'], 'signatures': own['signatures']}}
             json.dump(m, open(p, 'w'), indent=1)
-        cb = m.get('caught_by', {}).get(m['property'], {})
-        by = '%s (%s)' % (m['property'], '; '.join(cb.get('signatures', [])[:3])) if cb.get('verdict') == 'caught' else 'NOT REPORTED'
+        cb = m.get('caught_by', {}).get(who, {})
+        by = '%s (%s)' % (who, '; '.join(cb.get('signatures', [])[:3])) if cb.get('verdict') == 'caught' else 'NOT REPORTED'
         if m.get('tier') == 'thorough':
             by += ' — thorough tier'
         if m.get('initially_missed_by'):
